@@ -132,7 +132,10 @@ static size_t producer(void* st, ZSTD_Sequence* out, size_t cap, const void* src
     Prod* pr = (Prod*)st; Parse ps; SeqList l; Rng r; size_t k, ret; int fault = 0; long const call = ++pr->calls; size_t const abs0 = pr->abs_pos;
     (void)dict; (void)dsz; (void)level;
     pr->abs_pos += n;
-    if (pr->faults_enabled) for (k = 0; k < (size_t)pr->p->nops; k++) if (!strcmp(pr->p->ops[k].kind, "pf") && pr->p->ops[k].a[0] == call) fault = (int)pr->p->ops[k].a[1];
+    if (pr->faults_enabled && plan_get(pr->p, "pf_mod", 0) < 2) for (k = 0; k < (size_t)pr->p->nops; k++) if (!strcmp(pr->p->ops[k].kind, "pf") && pr->p->ops[k].a[0] == call) fault = (int)pr->p->ops[k].a[1];
+    /* family "interleaved fallback": the producer fails on every m-th block, so blocks parsed by the producer and blocks parsed by the internal
+     * fallback alternate inside one frame and each kind inherits the repeat-offset history the other left behind */
+    {   long const m = (long)plan_get(pr->p, "pf_mod", 0); if (pr->faults_enabled && !fault && m >= 2 && call % m == 0) { fault = 1 + (int)(plan_get(pr->p, "pf_kind", 0) % 3); sim_probe("c17.interleaved_fault"); } }
     memset(&ps, 0, sizeof ps); memset(&l, 0, sizeof l);
     rng_seed(&r, (uint64_t)plan_get(pr->p, "parse_seed", 1) + (uint64_t)call * 0x9E3779B97F4A7C15ull, "producer");
     sim_event("prod call=%ld n=%zu cap=%zu fault=%d", call, n, cap, fault);
@@ -145,6 +148,8 @@ static size_t producer(void* st, ZSTD_Sequence* out, size_t cap, const void* src
     default: break;
     }
     my_parse(&ps, (const uint8_t*)src, n, NULL, 0, pr->mm, W, &r);
+    {   size_t const kcap = (size_t)plan_get(pr->p, "pseq_cap", 0);   /* at most kcap sequences per block (1, 2, 3: the short-block branches of the repeat-offset bookkeeping); the rest become last literals */
+        if (kcap && ps.n > kcap) { size_t used = 0; for (k = 0; k < kcap; k++) used += (size_t)ps.t[k].ll + ps.t[k].ml; ps.n = kcap; ps.tail = n - used; sim_probe("c17.block_capped"); } }
     for (k = 0; k < ps.n; k++) sl_push(&l, ps.t[k].ll, ps.t[k].ml, ps.t[k].off);
     if (ps.tail || rng_coin(&r, 1, 2) || l.n == 0) sl_push(&l, (uint32_t)ps.tail, 0, 0);   /* the trailing delimiter is optional when there are no last literals */
     if (fault == 4) {   /* full buffer whose last entry is not a delimiter */
@@ -211,6 +216,16 @@ static void gen(Plan* p, Rng* r, int tier, long idx) {
         plan_set(p, "dict_kind", 0); plan_set(p, "corrupt", 0); plan_set(p, "c.targetCBlockSize", 0); plan_set(p, "alloc_fail", 0); plan_set(p, "in_size", 140000); }
     plan_set(p, "alloc_fail", rng_coin(r, 1, 8) ? (int64_t)(1 + rng_below(r, 12)) : 0);
     plan_set(p, "reuse_first", rng_coin(r, 1, 4));
+    /* family "interleaved fallback" (producer modes, every 4th group of six): see producer() */
+    plan_set(p, "pf_mod", 0); plan_set(p, "pf_kind", 0); plan_set(p, "pseq_cap", 0);
+    if (mode >= 4 && !combo && (idx / 6) % 4 == 3 && plan_get(p, "nbseq_k", 0) == 0) {
+        plan_set(p, "pf_mod", rng_range(r, 2, 4)); plan_set(p, "pf_kind", (int64_t)rng_below(r, 3)); plan_set(p, "pseq_cap", rng_coin(r, 1, 4) ? 0 : rng_range(r, 1, 3));
+        plan_set(p, "c.enableSeqProducerFallback", 1);
+        plan_set(p, "c.searchForExternalRepcodes", rng_coin(r, 1, 3) ? (int64_t)rng_below(r, 2) : 2);
+        if (rng_coin(r, 2, 3)) plan_set(p, "c.strategy", rng_range(r, 6, 9));
+        if (rng_coin(r, 1, 2)) plan_set(p, "c.maxBlockSize", rng_range(r, 1024, 16384));
+        if (rng_coin(r, 1, 2)) plan_set(p, "in_kind", rng_coin(r, 1, 2) ? GEN_TEXT : GEN_ALT);
+    }
 }
 
 static size_t applied_bmax(const Plan* p) {
